@@ -1162,3 +1162,34 @@ def _(mod):
                 k.value = ast.Constant(1500)
         return n
     return edit_first(f, pred, ed)
+
+
+@variant("c15-master-secret-64-bytes", "break", ["C15"], KD, "T6", "length-48", "TLS 1.2 master secret from RSA lines assembled as p1 + p2[:16] (64 bytes with SHA-384)")
+def _(mod):
+    f = get_func(mod, "gen_master_secret_tls_12")
+    def ed(n):
+        n.value = parse_expr("p1 + p2[:16]")
+        return n
+    return edit_first(f, is_assign_to("master_secret"), ed)
+
+
+@variant("c15-master-secret-hash-not-passed", "break", ["C15"], SES, "T6", "master-secret-hash", "generate_keys no longer hands the suite hash to the master-secret PRF")
+def _(mod):
+    f = get_func(mod, "Session.generate_keys")
+    def pred(n):
+        return isinstance(n, ast.Call) and ast.unparse(n.func).endswith("gen_master_secret_tls_12")
+    def ed(n):
+        n.args = n.args[:3]
+        return n
+    return edit_first(f, pred, ed)
+
+
+@variant("c15-master-secret-one-hmac-sha256", "break", ["C15"], KD, "T6", "hash-selection", "one of the four HMACs of the master-secret PRF is pinned to SHA-256")
+def _(mod):
+    f = get_func(mod, "gen_master_secret_tls_12")
+    def pred(n):
+        return isinstance(n, ast.Call) and ast.unparse(n.func) == "hmac.HMAC"
+    def ed(n):
+        n.args[1] = parse_expr("hashes.SHA256()")
+        return n
+    return edit_first(f, pred, ed, nth=3)
